@@ -79,30 +79,34 @@ type Addr struct {
 type World struct {
 	Handles   []Handle // C05: objects obtained and used while unlocked
 	Abandoned bool     // a goroutine is parked inside the manager: do not Close
-	R         *rand.Rand
-	Dir       string
-	Path      string
-	DB        *vdb.DB
-	M         *waddrmgr.Manager
-	Params    *chaincfg.Params
-	Seed      []byte
-	Root      *hdkeychain.ExtendedKey
-	PubPass   []byte
-	PrivPass  []byte
-	OldPriv   [][]byte
-	OldPub    [][]byte
-	Scopes    []waddrmgr.KeyScope
-	Schemas   map[waddrmgr.KeyScope]waddrmgr.ScopeAddrSchema
-	Accts     map[waddrmgr.KeyScope][]*Acct
-	Addrs     []*Addr
-	ByStr     map[string]*Addr
-	Names     []string
-	Height    int32
-	Hashes    map[int32]chainhash.Hash
-	WatchOnly bool
-	Log       []string
-	Paths     []PathRec // derivation paths derived through DeriveFromKeyPath(Cache)
-	copies    int
+	Neutered  bool     // the master HD root key was deleted (NeuterRootKey)
+	// PrivCryptoKey is a copy of the private crypto key, taken (verif hook) while the
+	// manager was unlocked; it never changes over the life of a wallet
+	PrivCryptoKey []byte
+	R             *rand.Rand
+	Dir           string
+	Path          string
+	DB            *vdb.DB
+	M             *waddrmgr.Manager
+	Params        *chaincfg.Params
+	Seed          []byte
+	Root          *hdkeychain.ExtendedKey
+	PubPass       []byte
+	PrivPass      []byte
+	OldPriv       [][]byte
+	OldPub        [][]byte
+	Scopes        []waddrmgr.KeyScope
+	Schemas       map[waddrmgr.KeyScope]waddrmgr.ScopeAddrSchema
+	Accts         map[waddrmgr.KeyScope][]*Acct
+	Addrs         []*Addr
+	ByStr         map[string]*Addr
+	Names         []string
+	Height        int32
+	Hashes        map[int32]chainhash.Hash
+	WatchOnly     bool
+	Log           []string
+	Paths         []PathRec // derivation paths derived through DeriveFromKeyPath(Cache)
+	copies        int
 	// Secrets / publics produced so far (C04 scanner patterns)
 	OnSecret func(name string, b []byte)
 	OnPublic func(name string, b []byte)
